@@ -628,7 +628,11 @@ def refine_droplet(
         for key in ["ftol", "xtol", "gtol"]:
             least_squares_params.setdefault(key, tolerance)
 
-    if not isinstance(droplet, DiffuseDroplet):
+    if isinstance(droplet, DiffuseDroplet):
+        # work on a copy, so the candidate is not modified and the result does not
+        # depend on whether the droplet has been refined (or listed) before
+        droplet = droplet.copy()
+    else:
         droplet = DiffuseDroplet.from_droplet(droplet)
     if droplet.interface_width is None:
         droplet.interface_width = phase_field.grid.typical_discretization
